@@ -83,7 +83,7 @@ func main() {
 		jobs = append(jobs, job{nHist + nBig, "bigtable"})
 	}
 	// iofault histories: one failing file-system step each (iofault.go); the plan is a function of (seed, k)
-	nFault := c.Pick(12, 116)
+	nFault := c.Pick(16, 120)
 	var fjobs []job
 	for k := 0; k < nFault; k++ {
 		fjobs = append(fjobs, job{nHist + 10 + k, fmt.Sprintf("iofault:%d", k)})
